@@ -33,7 +33,7 @@ COMMENTS = ['#', '# c', '#\n', '# comment\n', '#\f', '#\fx', '# \f\n', '#!\n', '
 FSTRING_BITS = ['{', '}', '{{', '}}', '!r', '!s', '!a', '!', ':', ':>10', ':{', '=', '{x}', '{x!r}',
                 '{x:>{w}}', '{x=}', '{x:{y:{z}}}', "{'", '{"', '\\{', '\\N{DASH}', '\\N{', '{\n', '{#',
                 '{*x}', '{lambda x:1}', '{x:=1}', '{x!r:^{w}.{p}}', '{:}', '{!r}', '{ }', '{;}', '{\\']
-STMT_STARTS = ['def f(a, /, b=1, *, c):', 'def f(a, /):', 'lambda a, /, b: ', 'def f(a, b=1, /,):', 'import a as b, c', 'from __future__ import *',
+STMT_STARTS = ['def f(*,): pass', 'lambda *,: 0', 'def f(*, /): pass', 'def f(a, /, b=1, *, c):', 'def f(a, /):', 'lambda a, /, b: ', 'def f(a, b=1, /,):', 'import a as b, c', 'from __future__ import *',
                'try:\n  pass\nfinally:\n  continue', 'for x in y:\n try:\n  pass\n finally:\n  continue\n', '[(x := 1) for [a, b] in c]', 'async with a:\n  return 1',
                'def f(', 'def f():', 'class A:', 'class A(', 'if x:', 'elif x:', 'else:', 'for x in y:',
                'while x:', 'try:', 'except:', 'except E as e:', 'finally:', 'with a as b:', 'async def f():',
